@@ -105,9 +105,16 @@ where
             .configure()
             .expect("SSL connect configuration was invalid.");
 
-        let ssl = config
-            .into_ssl(host)
-            .expect("SSL connect configuration was invalid.");
+        let ssl = match config.into_ssl(host) {
+            Ok(ssl) => ssl,
+            // OpenSSL rejects the hostname (e.g. empty or longer than 255 bytes)
+            Err(_) => {
+                return ConnectFut {
+                    io: None,
+                    stream: None,
+                }
+            }
+        };
 
         ConnectFut {
             io: Some(AsyncSslStream::new(ssl, io).unwrap()),
@@ -133,7 +140,14 @@ where
     fn poll(self: Pin<&mut Self>, cx: &mut Context<'_>) -> Poll<Self::Output> {
         let this = self.get_mut();
 
-        match ready!(Pin::new(this.io.as_mut().unwrap()).poll_connect(cx)) {
+        let Some(io) = this.io.as_mut() else {
+            return Poll::Ready(Err(io::Error::new(
+                io::ErrorKind::InvalidInput,
+                "connection parameters specified invalid server name",
+            )));
+        };
+
+        match ready!(Pin::new(io).poll_connect(cx)) {
             Ok(_) => {
                 let stream = this.stream.take().unwrap();
                 trace!("TLS handshake success: {:?}", stream.hostname());
